@@ -134,6 +134,17 @@ func init() {
 		}
 		return nil, ExceptionNewf(ValueError, "list.remove(x): x not in list")
 	}, 0, "remove(value) -- remove first occurrence of value")
+	ListType.Dict["reverse"] = MustNewMethod("reverse", func(self Object, args Tuple) (Object, error) {
+		l := self.(*List)
+		err := UnpackTuple(args, nil, "reverse", 0, 0)
+		if err != nil {
+			return nil, err
+		}
+		for i, j := 0, len(l.Items)-1; i < j; i, j = i+1, j-1 {
+			l.Items[i], l.Items[j] = l.Items[j], l.Items[i]
+		}
+		return None, nil
+	}, 0, "reverse() -- reverse *IN PLACE*")
 }
 
 // Type of this List object
